@@ -244,3 +244,189 @@ Lemma disk_after_spec : forall W, NoDup (map w_slot W) ->
   (forall w, In w W -> disk_after W (w_slot w) = cell_of w) /\
   (forall c, ~ In c (map w_slot W) -> disk_after W c = cell0).
 Proof. intros W H. unfold disk_after. apply (fold_apply_spec W disk0 H). intros; reflexivity. Qed.
+
+(* ---- 4.5 single steps of the rebuild, as explicit states ---- *)
+Lemma upd_eq : forall A (g : Z -> A) k v, upd g k v k = v.
+Proof. intros. unfold upd. now rewrite Z.eqb_refl. Qed.
+Lemma upd_neq : forall A (g : Z -> A) k v x, x <> k -> upd g k v x = g x.
+Proof. intros. unfold upd. destruct (x =? k) eqn:E; [apply Z.eqb_eq in E; congruence| reflexivity]. Qed.
+
+Ltac rsimp := cbn [set_ent set_sl set_nofuel r_ent r_sl r_nofuel e_state e_anch e_size e_start e_swapsz e_rewind
+  le_state le_anch le_size la_key la_start la_swapsz x_more x_final x_freed x_map
+  ls_more ls_mapped ls_final ls_freed ls_size ls_next lslot0 lent0 negb andb orb].
+
+Section RebuildSteps.
+Variables (N P : Z) (oi : Z -> option oinfo) (d : disk).
+
+Notation add_slot := (add_slot N P oi d).
+Notation add_tail := (add_tail N).
+Notation add_inode := (add_inode N P oi d).
+Notation load_one := (load_one N P oi d).
+Notation use_new_slot := (use_new_slot N P oi d).
+Notation finalize_or_free := (finalize_or_free N).
+Notation fin_walk := (fin_walk N).
+Notation free_bad_entry := (free_bad_entry N).
+
+(* while the total size is unknown the tail of addSlotToEntry only maps the slot *)
+Lemma add_tail_unknown : forall pos f i h s,
+  la_swapsz (r_ent s f) = 0 ->
+  add_tail pos f i h s = set_sl s i (x_map (r_sl s i) (h_psz h) (h_next h)).
+Proof. intros pos f i h s H. unfold DiskcrashModel.add_tail. rewrite H. reflexivity. Qed.
+
+Lemma chain_slot_unanch : forall f i s,
+  le_anch (r_ent s f) = false ->
+  chain_slot f i s = set_ent (set_sl s i (x_more (r_sl s i) (la_start (r_ent s f)))) f (e_start (r_ent s f) i).
+Proof. intros f i s H. unfold chain_slot. rewrite H. reflexivity. Qed.
+
+Lemma chain_slot_anch : forall f i s,
+  le_anch (r_ent s f) = true ->
+  chain_slot f i s =
+    let ino := la_start (r_ent s f) in
+    let s' := set_sl s i (x_more (r_sl s i) (ls_more (r_sl s ino))) in
+    set_sl s' ino (x_more (r_sl s' ino) i).
+Proof. intros f i s H. unfold chain_slot. rewrite H. reflexivity. Qed.
+
+(* a non-inode slot joins a Loading entry of unknown total size *)
+Lemma add_slot_noninode_unanch : forall pos f i h st e,
+  r_ent st f = e -> le_anch e = false -> la_swapsz e = 0 -> h_first h <> i ->
+  let st' := add_slot pos f i h st in
+  (forall f', r_ent st' f' = if f' =? f then mkLent (le_state e) false (le_size e + h_psz h) (la_key e) i 0
+                             else r_ent st f') /\
+  (forall c, r_sl st' c = if c =? i then mkLslot (la_start e) true (ls_final (r_sl st i)) (ls_freed (r_sl st i))
+                                                 (h_psz h) (h_next h)
+                          else r_sl st c).
+Proof.
+  intros pos f i h st e He Ha Hz Hf st'. subst st'. unfold DiskcrashModel.add_slot.
+  assert (h_first h =? i = false) as -> by lia.
+  rewrite chain_slot_unanch by (rewrite He; exact Ha). rewrite He.
+  cbn [set_ent set_sl r_ent r_sl]. rewrite upd_eq.
+  rewrite add_tail_unknown.
+  2:{ cbn [set_ent r_ent]. rewrite upd_eq. destruct e; cbn in *; exact Hz. }
+  destruct e as [es ea ez ek est esw]. cbn [le_state le_anch le_size la_key la_start la_swapsz] in *. subst ea esw.
+  split.
+  - intros f'. cbn [set_ent set_sl r_ent r_sl]. unfold upd. destruct (f' =? f); reflexivity.
+  - intros c. cbn [set_ent set_sl r_ent r_sl]. unfold upd. rewrite Z.eqb_refl. destruct (c =? i); reflexivity.
+Qed.
+
+Lemma add_slot_noninode_anch : forall pos f i h st e,
+  r_ent st f = e -> le_anch e = true -> la_swapsz e = 0 -> h_first h <> i -> la_start e <> i ->
+  let st' := add_slot pos f i h st in
+  (forall f', r_ent st' f' = if f' =? f then mkLent (le_state e) true (le_size e + h_psz h) (la_key e) (la_start e) 0
+                             else r_ent st f') /\
+  (forall c, r_sl st' c =
+     if c =? i then mkLslot (ls_more (r_sl st (la_start e))) true (ls_final (r_sl st i)) (ls_freed (r_sl st i))
+                            (h_psz h) (h_next h)
+     else if c =? la_start e then x_more (r_sl st c) i
+     else r_sl st c).
+Proof.
+  intros pos f i h st e He Ha Hz Hf Hino st'. subst st'. unfold DiskcrashModel.add_slot.
+  assert (h_first h =? i = false) as -> by lia.
+  rewrite chain_slot_anch by (rewrite He; exact Ha). rewrite He. cbv zeta.
+  cbn [set_ent set_sl r_ent r_sl]. rewrite He.
+  rewrite add_tail_unknown.
+  2:{ cbn [set_ent r_ent]. rewrite upd_eq. destruct e; cbn in *; exact Hz. }
+  destruct e as [es ea ez ek est esw]. cbn [le_state le_anch le_size la_key la_start la_swapsz] in *. subst ea esw.
+  split.
+  - intros f'. cbn [set_ent set_sl r_ent r_sl]. unfold upd. destruct (f' =? f); reflexivity.
+  - intros c. cbn [set_ent set_sl r_ent r_sl]. unfold upd.
+    assert (est =? i = false) as Hne by lia. assert (i =? est = false) as Hne' by lia.
+    rewrite Hne, Hne', Z.eqb_refl.
+    destruct (c =? i) eqn:Eci; [reflexivity|]. destruct (c =? est) eqn:Ece; [|reflexivity].
+    apply Z.eqb_eq in Ece. subst c. reflexivity.
+Qed.
+
+(* the inode of a multi-slot entry (entrySize 0, metadata intact) *)
+Definition meta_buf (w : wr) : list atom := read_area (Z.min P (dc_page_size - dc_cell_header_size)) (w_data w).
+Definition meta_ok (w : wr) : Prop :=
+  zeroed (meta_buf w) = false /\ exists info, parse_meta oi (meta_buf w) = Some info /\ o_ssz info = 0.
+
+Lemma import_entry_unknown : forall i w e,
+  d i = cell_of w -> meta_ok w -> h_esz (w_hdr w) = 0 -> la_swapsz e = 0 ->
+  import_entry P oi d i (w_hdr w) e = Some 0.
+Proof.
+  intros i w e Hd (Hz & info & Hp & Hs) He Hsw. unfold import_entry, import_buf. rewrite Hd. cbn [cell_of c_area].
+  fold (meta_buf w). rewrite Hz, Hp, He, Hsw, Hs. reflexivity.
+Qed.
+
+Lemma import_entry_known : forall i w e,
+  d i = cell_of w -> meta_ok w -> 0 < h_esz (w_hdr w) ->
+  import_entry P oi d i (w_hdr w) e = Some (h_esz (w_hdr w)).
+Proof.
+  intros i w e Hd (Hz & info & Hp & Hs) He. unfold import_entry, import_buf. rewrite Hd. cbn [cell_of c_area].
+  fold (meta_buf w). rewrite Hz, Hp, Hs. assert (H0 : 0 <? h_esz (w_hdr w) = true) by lia.
+  rewrite H0. cbv iota. rewrite H0. reflexivity.
+Qed.
+
+Lemma add_slot_inode_multi : forall pos f i w st e,
+  r_ent st f = e -> le_anch e = false -> la_swapsz e = 0 ->
+  h_first (w_hdr w) = i -> h_esz (w_hdr w) = 0 -> d i = cell_of w -> meta_ok w ->
+  let h := w_hdr w in
+  let st' := add_slot pos f i h st in
+  (forall f', r_ent st' f' = if f' =? f then mkLent (le_state e) true (le_size e + h_psz h) (la_key e) i 0
+                             else r_ent st f') /\
+  (forall c, r_sl st' c = if c =? i then mkLslot (la_start e) true (ls_final (r_sl st i)) (ls_freed (r_sl st i))
+                                                 (h_psz h) (h_next h)
+                          else r_sl st c).
+Proof.
+  intros pos f i w st e He Ha Hz Hf Hesz Hd Hm h st'. subst st' h. unfold DiskcrashModel.add_slot.
+  assert (h_first (w_hdr w) =? i = true) as -> by lia.
+  rewrite chain_slot_unanch by (rewrite He; exact Ha). rewrite He.
+  cbn [set_ent set_sl r_ent r_sl]. rewrite upd_eq.
+  unfold DiskcrashModel.add_inode. cbn [set_ent r_ent]. rewrite upd_eq.
+  destruct e as [es ea ez ek est esw]. cbn [le_state le_anch le_size la_key la_start la_swapsz] in *. subst ea esw.
+  cbn [e_size e_start e_anch le_anch le_state le_size la_key la_start la_swapsz].
+  rewrite (import_entry_unknown i w _ Hd Hm Hesz) by reflexivity.
+  rewrite Hesz. change (0 <? 0) with false. cbv iota.
+  rewrite add_tail_unknown by (cbn [set_ent r_ent]; rewrite upd_eq; reflexivity).
+  split.
+  - intros f'. cbn [set_ent set_sl r_ent r_sl]. unfold upd. destruct (f' =? f); reflexivity.
+  - intros c. cbn [set_ent set_sl r_ent r_sl]. unfold upd. rewrite Z.eqb_refl. destruct (c =? i); reflexivity.
+Qed.
+
+Lemma fin_walk_done : forall fuel pos lesize slot sum s,
+  (slot <? 0) || negb (sum <? lesize) = true -> fin_walk fuel pos lesize slot sum s = WDone slot sum s.
+Proof. intros [|fuel] pos lesize slot sum s H; cbn [DiskcrashModel.fin_walk]; rewrite H; reflexivity. Qed.
+
+(* a complete one-slot entry is finalised as soon as its slot is loaded *)
+Lemma add_slot_single : forall pos f i w st k,
+  r_ent st f = mkLent LeLoading false 0 k (-1) 0 -> r_sl st i = lslot0 ->
+  h_first (w_hdr w) = i -> h_esz (w_hdr w) = h_psz (w_hdr w) -> 0 < h_psz (w_hdr w) -> h_next (w_hdr w) = -1 ->
+  0 <= i < N -> i <= pos -> d i = cell_of w -> meta_ok w ->
+  let T := h_psz (w_hdr w) in
+  let st' := add_slot pos f i (w_hdr w) st in
+  (forall f', r_ent st' f' = if f' =? f then mkLent LeLoaded true T k i T else r_ent st f') /\
+  (forall c, r_sl st' c = if c =? i then mkLslot (-1) true true false T (-1) else r_sl st c).
+Proof.
+  intros pos f i w st k He Hfresh Hf Hesz Hpsz Hnext Hi Hpos Hd Hm T st'. subst st' T. unfold DiskcrashModel.add_slot.
+  assert (h_first (w_hdr w) =? i = true) as -> by lia.
+  rewrite chain_slot_unanch by (rewrite He; reflexivity). rewrite He.
+  cbn [set_ent set_sl r_ent r_sl]. rewrite upd_eq.
+  unfold DiskcrashModel.add_inode. cbn [set_ent r_ent]. rewrite upd_eq.
+  rsimp.
+  rewrite (import_entry_known i w _ Hd Hm) by lia.
+  assert (0 <? h_esz (w_hdr w) = true) as -> by lia.
+  rsimp.
+  assert (h_esz (w_hdr w) =? 0 = false) as -> by lia. rewrite Z.eqb_refl. rsimp.
+  unfold DiskcrashModel.add_tail. rsimp. rewrite upd_eq. rsimp. rewrite Hesz.
+  assert (0 <? h_psz (w_hdr w) = true) as -> by lia.
+  assert (h_psz (w_hdr w) <? 0 + h_psz (w_hdr w) = false) as -> by lia.
+  assert (0 + h_psz (w_hdr w) =? h_psz (w_hdr w) = true) as -> by lia. rsimp.
+  unfold DiskcrashModel.finalize_or_free. rsimp. rewrite !upd_eq. rsimp.
+  assert (0 + h_psz (w_hdr w) <=? 0 = false) as -> by lia.
+  unfold fuelN. cbn [DiskcrashModel.fin_walk].
+  assert (i <? 0 = false) as -> by lia. assert (0 <? 0 + h_psz (w_hdr w) = true) as -> by lia. rsimp.
+  assert (i <? N = true) as -> by lia. assert (i <=? pos = true) as -> by lia. rsimp.
+  rewrite !upd_eq. rewrite Hfresh. rsimp.
+  assert (h_psz (w_hdr w) <=? 0 = false) as -> by lia.
+  rewrite fin_walk_done by (rewrite Hnext; reflexivity).
+  rewrite Hnext. change (-1 <? 0) with true. rsimp.
+  assert (0 + h_psz (w_hdr w) =? 0 + h_psz (w_hdr w) = true) as -> by lia.
+  rsimp. rewrite !upd_eq. rsimp.
+  assert (h_psz (w_hdr w) =? 0 = false) as -> by lia.
+  split.
+  - intros f'. rsimp. unfold upd. destruct (f' =? f); [|reflexivity].
+    unfold e_state, e_swapsz, e_anch, e_size, e_start. cbn. reflexivity.
+  - intros c. rsimp. unfold upd. destruct (c =? i); reflexivity.
+Qed.
+
+End RebuildSteps.
